@@ -264,6 +264,8 @@ thread_local! {
     /// one long-lived builder per worker: C09's frame-level clauses are also checked on the
     /// output of a builder that has already built (and failed to build) other messages
     static REUSED: std::cell::RefCell<MessageBuilder> = std::cell::RefCell::new(MessageBuilder::new());
+    /// value tree of the message the reused builder saw last (for replays)
+    static REUSED_PREV: std::cell::RefCell<Option<Value>> = std::cell::RefCell::new(None);
 }
 
 fn judge_c09_reused(ctx: &mut Ctx, m: &Message) {
@@ -273,19 +275,64 @@ fn judge_c09_reused(ctx: &mut Ctx, m: &Message) {
             b.build_message(m).ok().map(|f| f.to_vec())
         })
     });
+    let long = matches!(&r, Ok(Some(f)) if f.len() > 900);
     match r {
         Ok(Some(f)) => {
             ctx.count("frames_from_reused_builder_checked");
             well_formed(ctx, m, &f, "reused_builder");
         }
         Ok(None) => {}
-        Err(_) => {
+        Err(p) => {
+            // the fresh builder has just handled this message without panicking (or the panic was reported there):
+            // a panic here comes from what the builder did before
+            let prev = REUSED_PREV.with(|x| x.borrow().clone()).unwrap_or(Value::Null);
+            let cur = vtree::to_v(m).map(|v| vtree::v_to_json(&v)).unwrap_or(Value::Null);
+            ctx.panic_violation("C09.no_panic", &p, &format!("build_message({}) on a builder that had built other messages before", msg_class(m)), json!({"kind":"reused_pair","prev":prev,"vtree":cur}));
             // a panic may leave the RefCell borrowed or the builder in any state: start over
             REUSED.with(|b| {
                 if let Ok(mut g) = b.try_borrow_mut() {
                     *g = MessageBuilder::new();
                 }
             });
+        }
+    }
+    if ctx.evaluations % 32 == 0 || long {
+        let cur = vtree::to_v(m).map(|v| vtree::v_to_json(&v)).ok();
+        REUSED_PREV.with(|x| *x.borrow_mut() = cur);
+    } else {
+        REUSED_PREV.with(|x| *x.borrow_mut() = None);
+    }
+}
+
+/// every list-bearing message at its capacity (the longest frames the encoder produces), each followed by a short
+/// message on the same builder
+fn capacity_messages(ctx: &mut Ctx, rng: &mut Rng, which: Which) {
+    for l in crate::oracle::layout::LISTS.iter() {
+        for fill in [1usize, 2] {
+            let total_bits = l.elems_bit + l.capacity * l.elem_bits;
+            let nbytes = (total_bits + 7) / 8;
+            if nbytes > 1023 {
+                continue;
+            }
+            let mut p = if fill == 1 { vec![0xFFu8; nbytes] } else { rng.bytes(nbytes) };
+            bits::write(&mut p, 0, 12, l.number as u128);
+            bits::write(&mut p, l.count_bit, l.count_width, l.capacity as u128);
+            if let Ok(Some(m)) = decode(&crc::frame(&p)) {
+                if m.number() == Some(l.number) {
+                    ctx.count("list_messages_at_capacity");
+                    ctx.max("longest_payload_built_bytes", nbytes as f64);
+                    judge_message(ctx, &m, which, "list_at_capacity");
+                    // and something short right behind it
+                    judge_message(ctx, &Message::Empty, which, "after_list_at_capacity");
+                    if let Ok(Some(s)) = decode(&crc::frame(&{
+                        let mut q = vec![0u8; 19];
+                        bits::write(&mut q, 0, 12, 1005);
+                        q
+                    })) {
+                        judge_message(ctx, &s, which, "after_list_at_capacity");
+                    }
+                }
+            }
         }
     }
 }
@@ -409,6 +456,7 @@ pub fn run(p: &Params, which: Which) -> Outcome {
         let mut rng = Rng::derive(seed, "codec", w as u64);
         let mut tpl = Templates::default();
         no_wire_form(ctx, &mut rng, which, w, nw);
+        capacity_messages(ctx, &mut rng, which);
         for i in 0..per {
             if ctx.saturated() {
                 ctx.count("stopped_early_after_20000_violations");
@@ -514,6 +562,17 @@ pub fn replay(p: &Params, v: &Value, which: Which) -> Outcome {
         "frame" => {
             let f = unhex(v["hex"].as_str().unwrap_or(""));
             judge_frame(&mut ctx, &f, which);
+        }
+        "reused_pair" => {
+            if let Some(pm) = vtree::json_to_v(&v["prev"]).and_then(|t| vtree::from_v::<Message>(&t).ok()) {
+                judge_message(&mut ctx, &pm, which, "replay");
+            }
+            match vtree::json_to_v(&v["vtree"]).and_then(|t| vtree::from_v::<Message>(&t).ok()) {
+                Some(m) => {
+                    judge_message(&mut ctx, &m, which, "replay");
+                }
+                None => ctx.inconclusive("replay value tree does not deserialize to a Message".into()),
+            }
         }
         k => ctx.inconclusive(format!("unknown replay kind {}", k)),
     }
